@@ -13,10 +13,13 @@
 EXTENDS H8Exec, FiniteSets
 CONSTANTS W2Grid          \* step of the second-word grid (1 = all)
 
-VARIABLE w
-Init == w \in 0..65535
-Next == UNCHANGED w
-Spec == Init /\ [][Next]_w
+VARIABLE ws      \* <<phase, value>>: phase 0 = seed (high byte), phase 1 = the word under test
+(* TLC evaluates invariants of INITIAL states in one thread; seeding with the 256 high bytes and expanding *)
+(* each into its 256 words as successors lets all workers share the 65,536 cases                         *)
+Init == ws \in {<<0, h>> : h \in 0..255}
+Next == ws[1] = 0 /\ ws' \in {<<1, ws[2] * 256 + k>> : k \in 0..255}
+Spec == Init /\ [][Next]_ws
+w == ws[2]
 
 One(i)  == Len(Forms[i].w) = 1
 Rows1(x) == {i \in 1..NForms : One(i) /\ WMatch(x, Forms[i].w[1])}
@@ -27,6 +30,7 @@ W2Cands(x) == {Forms[i].w[2].v : i \in RowsM(x)}
               \cup {g * W2Grid : g \in 0..(65535 \div W2Grid)}
 W3Cands(x, y) == {Forms[i].w[3].v : i \in {j \in RowsM(x) : Len(Forms[j].w) >= 3 /\ WMatch(y, Forms[j].w[2])}} \cup {0, 27424, 27552}
 InvFunction ==
+  ws[1] = 0 \/
   /\ Cardinality(Rows1(w)) <= 1
   /\ (Rows1(w) # {} => RowsM(w) = {})
   /\ (RowsM(w) # {} =>
@@ -37,7 +41,8 @@ Adv == << [n \in 0..7 |-> <<0, 0>>], [n \in 0..7 |-> <<65535, 65535>>], [n \in 0
           [n \in 0..7 |-> <<n % 2 * 255, (16760608 + 4 * n) % P16>>] >>
 Total(x) == x.res \in {"ok", "err", "any"} /\ x.ccr \in 0..255
 InvTotal ==
-  \A k \in 1..Len(Adv) : \A pc \in {16760832, 4194304, 6291454, 250} :
+  ws[1] = 0 \/
+  \A k \in {1 + (w % 2), 3 + (w % 2)} : \A pc \in {IF w % 3 = 0 THEN 16760832 ELSE 4194304, IF w % 5 = 0 THEN 250 ELSE 6291454} :
      Total(StepF([er |-> Adv[k], ccr |-> (k * 85) % 256, pc |-> pc,
                   mem |-> MemOf("tag", << <<pc, <<w \div 256, w % 256>>>> >>)]))
 
